@@ -8,16 +8,32 @@ use composition::cgr::verif_c11 as core_side;
 pub fn c13_cgr<const N: usize>() {
     let sz = any_u32();
     assume(sz >= 1 && sz <= (1u32 << 20));
-    let mut bytes = [0u8; N];
+    // a Python str reaches Rust as UTF-8: N symbolic characters, each either ASCII
+    // or a two-byte character U+0080..=U+07FF (valid UTF-8 by construction)
+    let mut bytes = [0u8; 16];
+    let mut len = 0usize;
+    let nchars = any_usize();
+    assume(nchars <= N);
+    let mut two_byte = false;
     let mut i = 0;
     while i < N {
-        let b = any_u8();
-        assume(b < 0x80); // ASCII (a Python str reaches Rust as UTF-8; multi-byte characters are rejected byte-wise like any other byte)
-        bytes[i] = b;
+        if i < nchars {
+            if any_bool() {
+                let cp = any_u32();
+                assume(cp >= 0x80 && cp <= 0x7ff);
+                bytes[len] = 0xc0 | (cp >> 6) as u8;
+                bytes[len + 1] = 0x80 | (cp & 0x3f) as u8;
+                len += 2;
+                two_byte = true;
+            } else {
+                let b = any_u8();
+                assume(b < 0x80);
+                bytes[len] = b;
+                len += 1;
+            }
+        }
         i += 1;
     }
-    let len = any_usize();
-    assume(len <= N);
     let s = unsafe { String::from_utf8_unchecked(bytes[..len].to_vec()) };
     let py = CgrComputer::new(sz as usize);
     let core = core_side::mk(sz as f64);
@@ -27,13 +43,17 @@ pub fn c13_cgr<const N: usize>() {
     if let (Ok(a), Ok(b)) = (&r_py, &r_core) {
         check!(a.len() == b.len(), "C13: Python CGR and core CGR differ in length");
         let p = any_usize();
-        assume(p < N);
+        assume(p < 2 * N);
         if p < a.len() && p < b.len() {
             check!(a[p].0.to_bits() == b[p].0.to_bits() && a[p].1.to_bits() == b[p].1.to_bits(), "C13: Python CGR point differs from the core CGR point");
         }
         cover!(a.len() == N, "req: full-length accepted record");
     }
     cover!(r_py.is_err(), "req: rejected record");
+    cover!(two_byte && nchars >= 2, "req: string with a two-byte character");
+    if two_byte {
+        check!(r_py.is_err(), "C13: a non-ASCII character is not treated as a bad nucleotide by the Python CGR");
+    }
     cover!(true, "req: end of harness reached");
     core::mem::forget(r_py);
     core::mem::forget(r_core);
